@@ -42,12 +42,13 @@ def _always_leaves(stmts):
     return bool(stmts) and isinstance(stmts[-1], (ast.Raise, ast.Continue, ast.Break, ast.Return))
 
 
-def loop_carried(fi, loop, current=()):
+def loop_carried(fi, loop, current=(), ctx=None):
     """Names whose value written in one iteration of `loop` can be read in a later iteration.
     -> dict name -> (write node, read node)"""
     loopvars = (set(_targets(loop.target)) if isinstance(loop, ast.For) else set()) | set(current)
     body = loop.body
     writes = {}      # name -> [node]
+    via_call = set()
     for st in body:
         for n in ast.walk(st):
             if isinstance(n, (ast.FunctionDef, ast.Lambda)):
@@ -78,7 +79,26 @@ def loop_carried(fi, loop, current=()):
             elif isinstance(n, ast.withitem) and n.optional_vars is not None:
                 for nm in _targets(n.optional_vars):
                     writes.setdefault(nm, []).append(n)
+    # a container defined outside the loop and handed, inside the loop, to a repository function that mutates that parameter
+    if ctx is not None:
+        assigned_in_body = set(writes)
+        for st in body:
+            for n in ast.walk(st):
+                if not isinstance(n, ast.Call):
+                    continue
+                for i, a in enumerate(n.args):
+                    nm = pseudo(a)
+                    if nm is None or nm in loopvars or nm in assigned_in_body:
+                        continue
+                    for t in ctx.res.resolve_call(n):
+                        if isinstance(t, FuncInfo) and not isinstance(t.node, ast.Lambda):
+                            ps = [p for p in t.params if p not in ('self', 'cls')]
+                            if i < len(ps) and _mutates_and_reads(t, ps[i]):
+                                writes.setdefault(nm, []).append(n)
+                                via_call.add(nm)
     carried = {}
+    for nm in via_call:
+        carried[nm] = (writes[nm][0], writes[nm][0])
     for nm, ws in writes.items():
         if nm in loopvars:
             continue
@@ -172,6 +192,25 @@ def r28_independence(ctx, loops, rule='R28'):
     return n
 
 
+def _mutates_and_reads(fi, param):
+    mut = read = False
+    for n in ast.walk(fi.node):
+        if isinstance(n, ast.Call) and isinstance(n.func, ast.Attribute) and n.func.attr in MUT and pseudo(n.func.value) == param:
+            mut = True
+        elif isinstance(n, (ast.Assign, ast.AugAssign)):
+            tg = n.targets if isinstance(n, ast.Assign) else [n.target]
+            if any(isinstance(t, ast.Subscript) and base_name(t) == param for t in tg):
+                mut = True
+        if isinstance(n, ast.Compare) and any(pseudo(c) == param for c in n.comparators):
+            read = True
+        if isinstance(n, ast.Subscript) and isinstance(n.ctx, ast.Load) and pseudo(n.value) == param:
+            read = True
+        if isinstance(n, ast.Call) and isinstance(n.func, ast.Attribute) and n.func.attr in ('get', 'items', 'keys', 'values') \
+                and pseudo(n.func.value) == param:
+            read = True
+    return mut and read
+
+
 def loops_of(fi):
     """(loop, enclosing loop variables) for every for-loop of fi, outermost first."""
     out = []
@@ -226,7 +265,7 @@ def r28_functions(ctx, specs, rule='R28'):
         bad_any = False
         for loop, current in lps:
             n += 1
-            carried = loop_carried(fi, loop, current)
+            carried = loop_carried(fi, loop, current, ctx)
             bad = {k: v for k, v in carried.items() if k not in allowed}
             for nm, (w, r) in sorted(bad.items()):
                 bad_any = True
